@@ -22,7 +22,7 @@ CHECKS = {
         "(values, last-invocation arguments, exactly-once set, never-run set). Exploration is the right level: the "
         "property is a for-all over programs/configurations with a cheap exact oracle.",
         "DESIGN.md section 8, C01",
-        "Programs outside the generator grammar (3-10 nodes, <=3 params) are not covered.",
+        "Programs outside the generator grammar (3-10 nodes, <=3 params) are not covered. Known findings in known_findings.json: equality-based change detection (F-C01b) and a waiting node that ran on a provisional value and is not re-run without a new signal (F-C01d).",
     ),
     "C02": (
         "exploration",
